@@ -117,17 +117,18 @@ impl ProcfsBase {
                 "self".into(),
             ]
             .into_iter()
-            // Return the first option that exists in proc_root.
-            .find(|base| {
-                match proc_root {
-                    Some(root) => syscalls::fstatat(root, base),
-                    None => {
-                        syscalls::fstatat(syscalls::AT_FDCWD, PathBuf::from("/proc").join(base))
-                    }
-                }
-                .is_ok()
+            // Return the first option that exists in proc_root. This is also
+            // done when an error value is being built (to find out what a file
+            // descriptor refers to), so the probe must not build error values
+            // itself -- otherwise a system without a usable /proc turns every
+            // error into unbounded recursion.
+            .find(|base| match proc_root {
+                Some(root) => syscalls::exists_at(root, base),
+                None => syscalls::exists_at(syscalls::AT_FDCWD, PathBuf::from("/proc").join(base)),
             })
-            .expect("at least one candidate /proc/thread-self path should work"),
+            // If there is no usable /proc at all, lookups through the path we
+            // return fail with a proper error, which beats a panic.
+            .unwrap_or_else(|| "thread-self".into()),
         }
     }
     // TODO: Add into_raw_path() that doesn't use symlinks?
